@@ -6,3 +6,6 @@ import Gmsm.Props.C19
 import Gmsm.Props.C12
 import Gmsm.Props.C07
 import Gmsm.Props.C10
+import Gmsm.Props.C03
+import Gmsm.Props.C03Alg
+import Gmsm.Proofs.ECFormulas
